@@ -1,5 +1,6 @@
 import NucsProofs.Propagators.Affine
 import NucsProofs.Propagators.AffineLeq
+import NucsProofs.Propagators.AlldifferentReg
 import NucsProofs.Propagators.CountEq
 import NucsProofs.Propagators.Counting
 import NucsProofs.Propagators.Dummy
@@ -23,6 +24,7 @@ theorem C06_and : GroundOk .and := groundOk_and
 theorem C06_affineEq : GroundOk .affineEq := groundOk_affineEq
 theorem C06_affineGeq : GroundOk .affineGeq := groundOk_affineGeq
 theorem C06_affineLeq : GroundOk .affineLeq := groundOk_affineLeq
+theorem C06_alldifferent : GroundOk .alldifferent := groundOk_alldifferent
 theorem C06_countEq : GroundOk .countEq := groundOk_countEq
 theorem C06_dummy : GroundOk .dummy := groundOk_dummy
 theorem C06_elementIv : GroundOk .elementIv := groundOk_elementIv
@@ -41,7 +43,7 @@ theorem C06_scc : GroundOk .scc := groundOk_scc
 
 /-- algorithms for which `GroundOk` is stated (Spec.lean) but not proved here: validated by the
     correspondence and the brute-force oracle only -/
-def C06_unproved : List Alg := [.alldifferent, .gcc]
+def C06_unproved : List Alg := [.gcc]
 
 /-- on an instantiated box the call fails iff the tuple violates the relation -/
 theorem C06_point_iff (a : Alg) (hs : Sound a) (hg : GroundOk a) (hw : ∀ ps t, relW a ps t → rel a ps t)
